@@ -2128,6 +2128,19 @@ class CatchExceptionDataset(Dataset):
             LOG.info(f'{self.__class__.__name__} filtered {catched_count} of {total_count} examples (catched expections: {types}).')
 
 
+class _FilteredExample:
+    """
+    Marker that a worker of PrefetchDataset returns instead of an example,
+    when the example is dropped because of `catch_filter_exception`.
+
+    The class itself (and not an instance) is used as marker, because a
+    class is pickled by reference. So the identity check in the main process
+    also works for the backends that use processes, where the result of the
+    worker is pickled.
+    """
+    pass
+
+
 class PrefetchDataset(Dataset):
     def __init__(
             self,
@@ -2223,7 +2236,7 @@ class PrefetchDataset(Dataset):
             else:
                 catch_filter_exception = self.catch_filter_exception
 
-            unique_object = object()
+            unique_object = _FilteredExample
 
             if with_key:
                 def catcher(key):
